@@ -9,9 +9,8 @@ import core
 import trees
 
 IMPORTS = 'From EP Require Import C14.Model C14.Run.'
-NAMES = ['a', 'b', 'x', 'y', 'pi', 'alpha', 'text', 'node', 'map', 'count']
+NAMES = ['a', 'b', 'x', 'y', 'pi', 'alpha', 'text', 'node', 'map', 'count', 'if', 'for', 'div', 'let', 'union', 'some']
 CODE = {n: i + 1 for i, n in enumerate(NAMES)}
-KEYWORD_TARGETS = {'pi', 'if', 'for', 'some', 'every', 'let'}
 
 
 def rlit(t):
@@ -77,13 +76,13 @@ def run(chk):
         for s in trees.all_shapes(n, names=('a', 'b')):
             tlist.append(trees.from_shape(s))
     for _ in range(60 if quick else 4000):
-        t = trees.random_tree(rng, maxnodes=rng.choice([4, 9, 16]), names=('a', 'b', 'x', 'y', 'pi', 'text', 'map'))
+        t = trees.random_tree(rng, maxnodes=rng.choice([4, 9, 16]), names=('a', 'b', 'x', 'y', 'pi', 'text', 'map', 'if', 'div'))
         t.tail = None
         # PI targets incl. names of functions / kind tests; repeated names interleaved with text and comments
         def retarget(x):
             for c in x.children:
                 if c.kind == 'p':
-                    c.target = rng.choice(['pi', 'alpha', 'text', 'node', 'map', 'count', 'x', 'a', 'b'])
+                    c.target = rng.choice(['pi', 'alpha', 'text', 'node', 'map', 'count', 'x', 'a', 'b', 'if', 'for', 'div', 'let', 'union', 'some'])
                 elif c.kind == 'e':
                     retarget(c)
         retarget(t)
@@ -162,12 +161,7 @@ def run(chk):
                             except ElementPathError as e:
                                 ok, got = False, 'error ' + str(e.code)
                             if not ok:
-                                target = getattr(n, 'name', None)
-                                anc_pi = any(isinstance(a, X.ProcessingInstructionNode) and a.name in KEYWORD_TARGETS for a in [n])
-                                if isinstance(n, X.ProcessingInstructionNode) and n.name in KEYWORD_TARGETS and isinstance(got, str):
-                                    chk.known('C14-pi-target-keyword', desc | {label: p, 'result': got})
-                                else:
-                                    chk.violation('impl-vs-spec', desc | {'parser': parser.version}, {label: p, 'selects': got})
+                                chk.violation('impl-vs-spec', desc | {'parser': parser.version}, {label: p, 'selects': got})
                     chk.nontrivial.add((ti, lib, mode, index[id(n)]))
                 # 3. distinct nodes have distinct paths
                 paths = [n.path for n in nodes]
@@ -188,15 +182,12 @@ def run(chk):
                         except ElementPathError as ex:
                             ok, got = False, 'error ' + str(ex.code)
                         if not ok:
-                            if isinstance(target, X.ProcessingInstructionNode) and target.name in KEYWORD_TARGETS and isinstance(got, str):
-                                chk.known('C14-pi-target-keyword', desc0 | {'etree_iter_paths': p, 'result': got})
-                            else:
-                                chk.violation('impl-vs-spec', desc0, {'etree_iter_paths': p, 'selects': got, 'expected_node': index[id(target)]})
+                            chk.violation('impl-vs-spec', desc0, {'etree_iter_paths': p, 'selects': got, 'expected_node': index[id(target)]})
         if ti % 37 == 0 and model[ti] is not None:
             chk.sample({'tree': trees.serialize(t)[:200], 'model (index path, steps, eval)': model[ti][:4]})
     chk.nontrivial = {repr(x) for x in chk.nontrivial}
     chk.rule = ('all element-only shapes <= 3 nodes plus seeded random trees with repeated names, interleaved text / comments, PI '
-                'targets that are also function or kind-test names; every node of root.iter() (document, element, namespace, '
+                'targets and element names that are also function, kind-test, keyword or operator names; every node of root.iter() (document, element, namespace, '
                 'attribute, text, comment, PI) x {node.path, fn:path under 3.0 and 3.1} evaluated back, x {xml.etree, lxml} x '
                 '{document, element root}; etree_iter_paths of every tree; non-trivial = every node, distinct by (tree, lib, mode, node)')
     chk.obligations.append({'name': 'correspondence:node.path==model steps', 'ok': not chk.corr_fail,
